@@ -69,3 +69,5 @@ def async_part(ctx):
     bubble_tv(ctx, "TestMapOrd", "parallel", "Trace_MapOrd", "tv.cfg", "mapstream perturbed", {"n": n}, silent=False, perturb=True)
     bubble_tv(ctx, "TestPipe", "pipe", "Trace_Pipe", "tv.cfg", "pipe", {"n": n, "reps": 2})
     bubble_tv(ctx, "TestPipe", "pipe", "Trace_Pipe", "tv.cfg", "pipe perturbed", {"n": n, "reps": 1}, perturb=True)
+    from bubblecommon import async_env_part
+    async_env_part(ctx, ctx.pick(800, 12000))
